@@ -32,16 +32,38 @@ module.exports.run_case = async function (c, repo) {
     const A = c.A.map(r => r.slice());
     const B = c.B ? c.B.map(r => r.slice()) : null;
     const rowsA = A.slice(), rowsB = B ? B.slice() : null;
-    const out = [], warns = [], names = [];
+    const out = [], warns = [];
     let err = null;
-    try {
-        await rbql.query_table(c.qjs, A, out, warns, B, c.hdrA || null, c.hdrB || null, names);
-    } catch (e) {
-        err = canon_error(e);
+    // the same path as query_table (TableIterator / TableWriter / SingleTableRegistry through rbql.query), with an input
+    // iterator that counts its pulls and can serve an endless stream (early-stop clause of C02)
+    class CountingIterator extends rbql.TableIterator {
+        constructor(table, names, endless) { super(table, names, true); this.pulls = 0; this.endless = endless || 0; }
+        async get_record() {
+            if (this.endless) {
+                if (this.stopped) return null;
+                if (this.pulls >= this.endless) throw new Error('ENDLESS-BOUND');
+                const r = this.table[this.pulls % this.table.length];
+                this.pulls += 1;
+                this.nr += 1;
+                return r;
+            }
+            const r = await super.get_record();
+            if (r !== null) this.pulls += 1;
+            return r;
+        }
     }
+    const it = new CountingIterator(A, c.hdrA || null, c.endless);
+    const writer = new rbql.TableWriter(out);
+    const reg = B === null ? null : new rbql.SingleTableRegistry(B, c.hdrB || null, true);
+    try {
+        await rbql.query(c.qjs, it, writer, warns, reg);
+    } catch (e) {
+        err = (e && e.message === 'ENDLESS-BOUND') ? ['O', 0, 'NONTERMINATION'] : canon_error(e);
+    }
+    const names = writer.header || [];
     let sources_ok = JSON.stringify(A) === JSON.stringify(c.A) && A.length === rowsA.length && A.every((r, i) => r === rowsA[i]);
     if (B) sources_ok = sources_ok && JSON.stringify(B) === JSON.stringify(c.B) && B.every((r, i) => r === rowsB[i]);
     const src = new Set(rowsA.concat(rowsB || []));
     const alias = out.some(r => src.has(r));
-    return {rows: out.map(r => r.map(canon_val)), error: err, header: names.length ? names : null, sources_ok: sources_ok, alias: alias};
+    return {rows: out.map(r => r.map(canon_val)), error: err, header: names.length ? names.slice() : null, sources_ok: sources_ok, alias: alias, pulls: it.pulls};
 };
